@@ -98,7 +98,7 @@ ASSUME_CURSORS = [
 ]
 
 BUF_OPS = ["remaining", "has_remaining", "chunk", "fill_buf", "advance", "consume", "copy_to_slice", "copy_to_bytes", "try_copy_to_slice",
-           "read", "chunks_vectored", "set_limit", "into_iter", "iter_nth"]
+           "read", "chunks_vectored", "set_limit", "into_iter", "iter_nth", "advance_at"]
 MUT_OPS = ["remaining_mut", "has_remaining_mut", "chunk_mut_len", "put", "put_slice", "put_bytes", "put_buf", "write", "manual", "set_limit", "advance_mut"]
 
 
@@ -171,7 +171,7 @@ def cursor_check(prop, tier, seed):
                          [], [0], leaf_types=["slice", "deque", "bytes"], wraps=("ref",), sample_k=150 if q else 300, seed=seed, timeout=1500 if q else 5000)
         design_progs = dm.pop("design_programs")
         gens.append(dm)
-        gen("bufsim", "buf", 4 if not q else 3, 4, 4, [0, 2, 3], ["advance", "copy_to_slice", "copy_to_bytes", "read", "set_limit", "consume", "remaining", "get", "chunks_vectored", "chunk", "into_iter", "iter_nth"],
+        gen("bufsim", "buf", 4 if not q else 3, 4, 4, [0, 2, 3], ["advance", "copy_to_slice", "copy_to_bytes", "read", "set_limit", "consume", "remaining", "get", "chunks_vectored", "chunk", "into_iter", "iter_nth", "advance_at"],
             ["get_u16", "get_u8", "try_get_u32_le"], [0], 1, simulate=(2500 if q else 40000, 40), take=2500)
         dms = K.design_mc("C12_sink_design", 2, 2, 1, [0, 1, 3], ["remaining_mut", "chunk_mut_len", "put_slice", "put_buf"], [], [0],
                           leaf_types=["slice", "vec", "bytesmut"], wraps=("ref",), side="mut", sample_k=150 if q else 40, seed=seed)
@@ -180,6 +180,9 @@ def cursor_check(prop, tier, seed):
         gen("mutsim", "mut", 4 if not q else 3, 4, 4, [0, 2, 3], ["put_slice", "write", "set_limit", "remaining_mut", "has_remaining_mut", "put_bytes", "put", "put_buf", "chunk_mut_len", "advance_mut", "manual"],
             ["put_u16", "put_u8", "put_u32_le"], [0], 1, simulate=(2500 if q else 40000, 40), take=2500)
         gen("bfs", "buf", 2, 2, 1 if q else 2, [2], ["advance", "read", "set_limit", "copy_to_bytes"], [], [0], 20 if q else 40, take=2500)
+        # the inner buffer is advanced / the limit changed between two reads
+        gen("innersim", "buf", 3, 3, 4, [0, 2, 3], ["advance_at", "set_limit", "chunk", "remaining", "advance", "copy_to_bytes", "read", "chunks_vectored"],
+            [], [0], 1, simulate=(2500 if q else 40000, 40), take=2500, leaf_types=["slice", "chunked", "deque", "bytes"])
         # every Chain / Limit over fixed and growing leaves (limits inside, at and beyond the room), two operations: fill, then ask
         gen("mutbfs", "mut", 2, 2, 2, [0, 2], ["put_slice", "has_remaining_mut", "remaining_mut", "chunk_mut_len", "advance_mut"], [], [0], 16 if q else 3,
             take=8000, leaf_types=["slice", "vec"], wraps=())
